@@ -828,28 +828,44 @@ class TrajectoryStore:
         # Create output directory.
         os.mkdir(output_store)
 
-        # Move input stores to output directory.
-        for input_store in input_stores:
-            p = Path(input_store)
-            dest = Path(output_store) / p.name
-            os.rename(p, dest)
+        moved: list[tuple[Path, Path]] = []
+        metadata_file = Path(output_store) / 'metadata.json'
+        try:
+            # Move input stores to output directory.
+            for input_store in input_stores:
+                p = Path(input_store)
+                dest = Path(output_store) / p.name
+                os.rename(p, dest)
+                moved.append((p, dest))
 
-        # Create merged index.
-        if indexable:
-            TrajectoryStore._create_merged_store_index(output_store, input_stores)
+            # Create merged index.
+            if indexable:
+                TrajectoryStore._create_merged_store_index(output_store, input_stores)
 
-        # Write metadata JSON file to output directory.
-        data = dict(stores=store_data, created=datetime.now(tz=UTC).isoformat())
-        if title is not None:
-            data['title'] = title
-        if comment is not None:
-            data['comment'] = comment
-        if history is not None:
-            data['history'] = history
-        if source is not None:
-            data['source'] = source
-        with open(Path(output_store) / 'metadata.json', 'w') as f:
-            json.dump(data, f)
+            # Write metadata JSON file to output directory.
+            data = dict(stores=store_data, created=datetime.now(tz=UTC).isoformat())
+            if title is not None:
+                data['title'] = title
+            if comment is not None:
+                data['comment'] = comment
+            if history is not None:
+                data['history'] = history
+            if source is not None:
+                data['source'] = source
+            with open(metadata_file, 'w') as f:
+                json.dump(data, f)
+        except BaseException:
+            # The merge was interrupted: put the inputs back where they came
+            # from and remove the partial output, so that every trajectory
+            # stays readable from its original file and the merge can be
+            # retried once the cause has been dealt with.
+            for p, dest in reversed(moved):
+                os.rename(dest, p)
+            for leftover in (metadata_file, Path(output_store) / '_index.nc'):
+                if leftover.exists():
+                    os.remove(leftover)
+            os.rmdir(output_store)
+            raise
 
     def get_flight(self, flight_id: int) -> Trajectory | None:
         """Lookup a trajectory by flight ID."""
